@@ -426,9 +426,11 @@ static void route(Sim *S, Dgram d)
 	if (S->explicit_fates) { auto it = S->fates.find(key); if (it != S->fates.end()) f = it->second; }
 	else {
 		auto it = S->fates.find(key);
-		if (it != S->fates.end()) f = it->second; else f = gen_fate(S, d.stream, d.ordinal, S->now);
+		if (it != S->fates.end()) f = it->second;
+		else { f = gen_fate(S, d.stream, d.ordinal, S->now); if (S->gen_mutator) S->gen_mutator(d, f); }
 	}
-	if (!f.is_default()) S->fired.push_back({key, f});
+	if (f.has_replace) { d.data = f.replace; S->count("fault.replace"); }
+	if (!f.is_default()) { S->fired.push_back({key, f}); if (S->on_fired) S->on_fired(key, f); }
 	S->fp_mix_u64(d.stream); S->fp_mix_u64(d.ordinal);
 	if (f.drop) { S->count("fault.drop"); S->tracef("FATE drop s%d#%llu", d.stream, (unsigned long long)d.ordinal); return; }
 	if (f.trunc >= 0 && (size_t)f.trunc < d.data.size()) { d.data.resize(f.trunc); S->count("fault.trunc"); }
